@@ -18,7 +18,7 @@ A(M("w3r6-filter-clash-drops-higher", ["C08"], PA, "        atoms_to_keep.discar
 A(M("w3r6-filter-models-not-compared", ["C08"], PA, "        if models[i] != models[j]:\n            continue\n", "", "clash-same-model", **R9))
 A(M("w3r6-filter-ge-silent", ["C08", "C15"], PA, "        atoms_to_keep.discard(j if occupancy_i > occupancy_j else i)\n", "        atoms_to_keep.discard(i if occupancy_j >= occupancy_i else j)\n", kind="silent", **R9))
 A(M("w3r6-filter-sorted-result-silent", ["C08"], PA, "    return [unique_atoms_list[i] for i in atoms_to_keep]", "    return [unique_atoms_list[i] for i in sorted(atoms_to_keep)]", kind="silent", **R9))
-A(M("w3r6-filter-tree-per-model-positions", ["C08"], PA, None, None, "kdtree-index-space", edits=[
+A(M("w3r6-filter-tree-over-a-subset", ["C08"], PA, None, None, ["kdtree-index-space", "clash-same-model", "clash-loser"], edits=[
     ("    coords = np.array([(atom.x, atom.y, atom.z) for atom in unique_atoms_list])\n    tree = KDTree(coords)\n", "    first_model = [atom for atom in unique_atoms_list if atom.model != unique_atoms_list[0].model]\n    coords = np.array([(atom.x, atom.y, atom.z) for atom in (first_model or unique_atoms_list)])\n    tree = KDTree(coords)\n")]))
 
 # ---- values that are valid and false as booleans (occupancy 0.00, B 0.00, the origin, residue number 0)
@@ -50,5 +50,6 @@ A(M("w3r6-fit-test-index-categories", ["C10"], P2, 'pd.to_numeric(df["auth_seq_i
 # ---- Structure.residues through helper methods of the class (base C15-r9)
 U9 = dict(base="C15-r9")
 A(M("w3r6-u9-label-first", ["C15"], T2F, '        prefix = "auth" if has_auth else "label"', '        prefix = "label" if has_auth else "auth"', "group-columns", **U9))
-A(M("w3r6-u9-no-format-tag", ["C15"], T2F, '        residue_df.attrs["format"] = self.format\n        return residue_df', '        return residue_df', ["group-columns", "accessors-eval", "prefer-auth"], **U9))
+# the groups of groupby carry the attrs of the table in the pandas the library runs on (2.2), and so they do in sa/frame.py: silent
+A(M("w3r6-u9-no-format-tag-silent", ["C15"], T2F, '        residue_df.attrs["format"] = self.format\n        return residue_df', '        return residue_df', kind="silent", **U9))
 A(M("w3r6-u9-tuple-key-silent", ["C15"], T2F, '        key_columns = [f"{prefix}_asym_id", f"{prefix}_seq_id"]', '        key_columns = list((f"{prefix}_asym_id", f"{prefix}_seq_id"))', kind="silent", **U9))
